@@ -82,8 +82,16 @@ def run_case(case):
         kw = dict(learner=case["learner"], folds=case["folds"], seed=seed, train_fdr=case["test_fdr"],
                   max_workers=case["workers"], max_iter=2, delay=0.003 if case["workers"] > 1 else 0.0,
                   override=bool(case["index"] % 2))
-        out = pipeline.run_brew(paths, test_fdr=case["test_fdr"], **kw)
+        # multi-worker cases predict in several chunks under a perturbed task schedule: a fold's score blocks must still
+        # line up with its rows
+        nmin = min(len(t["df"]) for t in tabs)
+        sizes = {"CHUNK_SIZE_ROWS_PREDICTION": max(5, nmin // int(rng.integers(3, 7)))} if case["workers"] > 1 or case["index"] % 5 == 0 else {}
+        kw["perturb"] = int(rng.integers(1 << 30))
+        with core.chunk_sizes(**sizes):
+            out = pipeline.run_brew(paths, test_fdr=case["test_fdr"], **kw)
+        res.count("task_kinds_finished_out_of_order", out.get("sched_out_of_order", 0))
         extra = {k: case[k] for k in ("folds", "test_fdr", "learner", "nfiles", "fmt", "workers")}
+        extra["chunks"] = sizes
         groups = per_fold(tabs, out.get("log", []))
         # expected behaviour from the recorded raw outputs
         minq = {}
@@ -160,7 +168,8 @@ def run_case(case):
         if len(vals) >= 2 and vals[0] < vals[-1]:
             fdr2 = float((vals[0] + vals[1]) / 2) if vals[1] > vals[0] else None
             if fdr2 and fdr2 < 1:
-                out2 = pipeline.run_brew(paths, test_fdr=fdr2, **kw)
+                with core.chunk_sizes(**sizes):
+                    out2 = pipeline.run_brew(paths, test_fdr=fdr2, **kw)
                 res.count("engineered_refusal_runs")
                 if out2["status"] == "ok" and not any(np.asarray(s).ndim != 1 for s in out2["scores"]):
                     # make sure the premise still holds in the second run's own log
